@@ -31,6 +31,24 @@ def _ranges(pred):
     return out
 
 
+def _probe_measuring():
+    """How does the scroll code of the CURRENT tree measure text?  Two behavioural probes of
+    UIContent.get_height_for_line (no names of helper functions are assumed):
+
+      disp_measure  control characters are measured as drawn (\x01 -> "^A", 2 columns) instead of
+                    get_cwidth's 0:   three of them at width 2 need 3 rows instead of 1
+      exact_height  a line with cells that are not one column wide is wrapped character by character
+                    (a wide character that does not fit wraps early):  "a\u4e16a" at width 2 needs
+                    3 rows ('a' / wide / 'a') instead of ceil(4 / 2) = 2
+    """
+    from prompt_toolkit.layout.controls import UIContent
+
+    def h(text, width):
+        return UIContent(get_line=lambda i: [("", text)], line_count=1).get_height_for_line(0, width, None)
+
+    return h("\x01\x01\x01", 2) == 3, h("a\u4e16a", 2) == 3
+
+
 def generate() -> None:
     try:
         from prompt_toolkit.layout.screen import Char
@@ -40,8 +58,10 @@ def generate() -> None:
         two = _ranges(lambda c: get_cwidth(c) == 2)
         other = _ranges(lambda c: get_cwidth(c) not in (0, 1, 2))
         dm = sorted((ord(k), [ord(x) for x in v]) for k, v in Char.display_mappings.items() if len(k) == 1)
+        disp_measure, exact_height = _probe_measuring()
     except Exception:  # broken tree: keep the model compilable, the correspondence reports it
         zero, two, other, dm = [], [], [], []
+        disp_measure, exact_height = False, False
     body = "namespace Ptk.Gen.C11\n\n"
     body += "/-- scanned sub-ranges of the code space (half open) -/\n"
     body += "def scanned : List (Nat × Nat) := [" + ", ".join(f"({a}, {b})" for a, b in SCAN) + "]\n\n"
@@ -54,6 +74,10 @@ def generate() -> None:
     body += "/-- `Char.display_mappings` as (code point, displayed code points) -/\n"
     body += "def displayMappings : List (Nat × List Nat) := [" + ", ".join(
         f"({k}, [{', '.join(str(x) for x in v)}])" for k, v in dm) + "]\n\n"
+    body += "/-- probe: the scroll code measures control characters as they are drawn (see gen_c11.py) -/\n"
+    body += f"def measuresDisplayWidth : Bool := {'true' if disp_measure else 'false'}\n\n"
+    body += "/-- probe: get_height_for_line wraps lines with non-1-column cells character by character -/\n"
+    body += f"def exactWrappedHeight : Bool := {'true' if exact_height else 'false'}\n\n"
     body += "def inRanges (rs : List (Nat × Nat)) (c : Char) : Bool := rs.any fun (a, b) => a ≤ c.toNat && c.toNat ≤ b\n\n"
     body += "/-- `utils.get_cwidth` of a one-character string -/\n"
     body += "def rawWidth (c : Char) : Nat := if inRanges zeroWidthRanges c then 0 else if inRanges wideRanges c then 2 else 1\n\n"
